@@ -211,6 +211,7 @@ func checkC06(c *Ctx) error {
 		c06RunBatch(c, r, b, cases)
 	}
 	doBatch(0)
+	c06ErrorSugar(c)
 	parallel(nBatches-1, 4, func(i int) { doBatch(i + 1) })
 	c.nontrivMin = 60
 	return nil
@@ -372,4 +373,99 @@ func methodSigs(p *bind.Plan) []string {
 		out = append(out, fmt.Sprintf("%s(%s) %s", m.Name, strings.Join(m.Params, ", "), m.Result))
 	}
 	return out
+}
+
+// c06ErrorSugar is the separately counted sub-workload for @error under
+// ?, * and +: the action parameter must be typed Error / []Error and must
+// hold the Error value of a shifted ERROR token, never a zero Token.
+func c06ErrorSugar(c *Ctx) {
+	tk := func(i int) gram.Term { return gram.Term{Ref: gram.Ref{Kind: gram.KTok, Idx: i}} }
+	er := func(s gram.Sugar) gram.Term { return gram.Term{Ref: gram.Ref{Kind: gram.KErr}, Sugar: s} }
+	toks := []gram.Token{{Name: "A", Lit: "a"}, {Name: "B", Lit: "b"}, {Name: "C", Lit: "c"}}
+	grammars := []*gram.Grammar{
+		{Tokens: toks, Rules: []gram.Rule{{Name: "s", Prods: []gram.Prod{{Terms: []gram.Term{tk(0), er(gram.Opt), tk(1)}}}}}},
+		{Tokens: toks, Rules: []gram.Rule{{Name: "s", Prods: []gram.Prod{{Terms: []gram.Term{tk(0), er(gram.Star), tk(1)}}}}}},
+		{Tokens: toks, Rules: []gram.Rule{
+			{Name: "s", Prods: []gram.Prod{{Terms: []gram.Term{tk(0), {Ref: gram.Ref{Kind: gram.KRule, Idx: 1}}, tk(1)}}}},
+			{Name: "r", Prods: []gram.Prod{{Terms: []gram.Term{er(gram.Plus)}}, {Terms: []gram.Term{tk(2)}}}},
+		}},
+	}
+	inputs := [][]int{{2, 3}, {2, 1, 3}, {2, 1, 1, 3}, {2, 1, 1, 1, 3}, {2, 4, 3}}
+	var cases []*PCase
+	for _, g := range grammars {
+		pc := &PCase{G: g, Origin: "error-under-sugar"}
+		pc.C = g.Desugar(false)
+		tbl, free, ok := refConflictFree(pc.C)
+		if !ok || !free {
+			c.Inconclusive("error-sugar-grammar-not-lalr")
+			continue
+		}
+		pc.Ref = tbl
+		pc.prepare()
+		cases = append(cases, pc)
+	}
+	b, err := genBatch(c, cases, false, false)
+	if err != nil {
+		c.Inconclusive("batch-build-failed")
+		return
+	}
+	defer b.Remove()
+	var jobs []hc.Job
+	type item struct {
+		pc   *PCase
+		toks []hc.Token
+	}
+	items := map[int]*item{}
+	id := 0
+	for _, pc := range cases {
+		c.Ev.Eval(1)
+		c.Ev.Count("error_under_sugar_grammars", 1)
+		if !pc.Pkg.GenOK {
+			c.Violation("well-formed-binding-rejected/error-under-sugar", pc.replay(fmt.Sprintf("the term's value type is Error (or []Error) and the method takes exactly that, yet lox rejected the package (exit %d):\n%s", pc.Pkg.Exit, tail(pc.Pkg.Diag, 1500)), nil, nil, nil))
+			continue
+		}
+		if pc.Pkg.BuildErr != "" {
+			c.Violation("generated-code-does-not-compile", pc.replay(pc.Pkg.BuildErr, nil, nil, nil))
+			continue
+		}
+		for _, w := range inputs {
+			ts := make([]hc.Token, len(w))
+			pj := hc.ParseJob{Rec: true}
+			for k, t := range w {
+				ts[k] = hc.Token{Type: t, Seq: k + 1}
+				pj.Toks = append(pj.Toks, [2]int{t, 0})
+			}
+			id++
+			items[id] = &item{pc, ts}
+			jobs = append(jobs, run.MkJob(id, pc.Pkg.Name, "parse", pj))
+		}
+	}
+	if len(jobs) == 0 {
+		return
+	}
+	results, _, _ := b.RunAll(jobs, 2*time.Minute, 20)
+	for jid, it := range items {
+		res, err := decodeRes[hc.ParseRes](results[jid])
+		if err != nil {
+			c.Inconclusive("job-no-result")
+			continue
+		}
+		exp, err := sem.Simulate(it.pc.G, it.pc.C, it.pc.Ref, it.pc.Opt, it.toks)
+		if err != nil {
+			continue // not a sentence of this grammar (e.g. two ERROR tokens for @error?)
+		}
+		c.Ev.Eval(1)
+		c.Ev.Count("error_under_sugar_parses", 1)
+		w := make([]int, len(it.toks))
+		for k, t := range it.toks {
+			w[k] = t.Type
+		}
+		if !res.OK {
+			c.Violation("sentence-not-parsed-cleanly/error-under-sugar", it.pc.replay(fmt.Sprintf("input [%s]: parse() returned false", tokString(it.pc.G, w)), nil, nil, nil))
+			continue
+		}
+		if diff := sem.Compare(exp, res.Events); diff != "" {
+			c.Violation("action-parameter-does-not-hold-its-terms-value/error-under-sugar", it.pc.replay(fmt.Sprintf("input [%s]: %s", tokString(it.pc.G, w), diff), nil, sem.Show(exp.Events), sem.Show(res.Events)))
+		}
+	}
 }
